@@ -176,7 +176,18 @@ func c19Class(in Fields) string {
 			break
 		}
 	}
-	return cls + ":" + c.kind + ":" + out + c19DataTag(c)
+	return cls + ":" + c.kind + ":" + out + c19DataTag(c) + c19TargetTag(c)
+}
+
+// ":tgt" when some CAP reply of the script is addressed to neither "*" nor the client's nick
+func c19TargetTag(c c19Case) string {
+	for _, l := range c.script {
+		f := strings.Fields(strings.TrimPrefix(l, c19Src))
+		if len(f) >= 3 && strings.EqualFold(f[0], "CAP") && f[1] != "*" && f[1] != "vbot" {
+			return ":tgt"
+		}
+	}
+	return ""
 }
 
 // c19DataTag: does this script make the client send its SASL initial response (an ACK carrying
@@ -293,8 +304,8 @@ func c19Login(r *Rand, kind, id, user, pass string) Fields {
 		}
 	}
 	req := c19Intersect(wanted, true, []string{"a", "b", "sasl"})
-	script := []string{c19Src + "CAP * LS :" + r.Pick([]string{"sasl a b", "a sasl b", "b a sasl"}),
-		c19Src + "CAP vbot ACK :" + strings.Join(req, " "), "AUTHENTICATE +"}
+	script := []string{c19Src + "CAP " + c19Target(r) + " LS :" + r.Pick([]string{"sasl a b", "a sasl b", "b a sasl"}),
+		c19Src + "CAP " + c19Target(r) + " ACK :" + strings.Join(req, " "), "AUTHENTICATE +"}
 	switch r.Intn(5) {
 	case 0:
 		script = append(script, c19Src+"904 vbot :SASL authentication failed")
@@ -309,6 +320,21 @@ func c19Login(r *Rand, kind, id, user, pass string) Fields {
 }
 
 const c19Src = ":irc.example "
+
+// the first parameter of a server's CAP reply (the "client identifier"): "*" before registration,
+// the nick afterwards — or whatever the server believes the nick to be: a bouncer's placeholder
+// (goirc sends CAP LS before NICK), a case variant, a truncated or altered nick.  handlers.go does
+// not look at it, and neither may the outcome of the negotiation depend on it.
+func c19Target(r *Rand) string {
+	switch k := r.Intn(20); {
+	case k < 6:
+		return "*"
+	case k < 11:
+		return "vbot"
+	default:
+		return r.Pick([]string{"unknown-nick", "VBOT", "Vbot", "vbo", "vbot_", "v", "someone-else", "vbot|away", "**"})
+	}
+}
 
 func c19Subsets(xs []string) [][]string {
 	var out [][]string
@@ -356,21 +382,21 @@ func c19Contains(xs []string, x string) bool {
 func c19Dialogue(r *Rand, wanted, adv []string, reply, kind, outcome string) (Fields, bool) {
 	id, user, pass := c19Creds(r, kind)
 	req := c19Intersect(wanted, kind != "none", adv)
-	script := []string{c19Src + "CAP * LS :" + strings.Join(adv, " ")}
+	script := []string{c19Src + "CAP " + c19Target(r) + " LS :" + strings.Join(adv, " ")}
 	acked := []string{}
 	if len(req) > 0 {
 		switch reply {
 		case "ackall", "ackminus":
 			acked = req
-			script = append(script, c19Src+"CAP vbot ACK :"+strings.Join(req, " "))
+			script = append(script, c19Src+"CAP "+c19Target(r)+" ACK :"+strings.Join(req, " "))
 		case "acksub":
 			acked = req[1:] // a strict subset: everything but the first name
 			if len(req)%2 == 0 {
 				acked = req[:len(req)-1]
 			}
-			script = append(script, c19Src+"CAP vbot ACK :"+strings.Join(acked, " "))
+			script = append(script, c19Src+"CAP "+c19Target(r)+" ACK :"+strings.Join(acked, " "))
 		case "nak":
-			script = append(script, c19Src+"CAP vbot NAK :"+strings.Join(req, " "))
+			script = append(script, c19Src+"CAP "+c19Target(r)+" NAK :"+strings.Join(req, " "))
 		}
 	} else if reply != "ackall" {
 		return nil, false // nothing was requested: the reply dimension collapses
@@ -389,7 +415,7 @@ func c19Dialogue(r *Rand, wanted, adv []string, reply, kind, outcome string) (Fi
 		return nil, false // SASL never started: the outcome dimension collapses
 	}
 	if reply == "ackminus" && len(acked) > 0 {
-		script = append(script, c19Src+"CAP vbot ACK :-"+acked[0])
+		script = append(script, c19Src+"CAP "+c19Target(r)+" ACK :-"+acked[0])
 	}
 	universe := []string{"a", "b", "c", "sasl"}
 	return c19Input(kind, id, user, pass, wanted, universe, script), true
@@ -455,14 +481,14 @@ func c19Long(r *Rand) Fields {
 		if p < parts-1 {
 			star = "* "
 		}
-		script = append(script, c19Src+"CAP * LS "+star+":"+strings.Join(adv[lo:hi], " "))
+		script = append(script, c19Src+"CAP "+c19Target(r)+" LS "+star+":"+strings.Join(adv[lo:hi], " "))
 	}
 	req := c19Intersect(wanted, kind != "none", adv)
 	if len(req) > 0 {
 		// acknowledge in two lines
 		h := len(req) / 2
-		script = append(script, c19Src+"CAP vbot ACK :"+strings.Join(req[:h], " "))
-		script = append(script, c19Src+"CAP vbot ACK :"+strings.Join(req[h:], " "))
+		script = append(script, c19Src+"CAP "+c19Target(r)+" ACK :"+strings.Join(req[:h], " "))
+		script = append(script, c19Src+"CAP "+c19Target(r)+" ACK :"+strings.Join(req[h:], " "))
 		if c19Contains(req, "sasl") {
 			script = append(script, "AUTHENTICATE +", c19Src+"903 vbot :ok")
 		}
@@ -507,13 +533,13 @@ func c19History(r *Rand) Fields {
 		var l string
 		switch r.Intn(16) {
 		case 0, 1, 2:
-			l = c19Src + "CAP * LS :" + toks()
+			l = c19Src + "CAP " + c19Target(r) + " LS :" + toks()
 		case 3:
-			l = c19Src + "CAP * LS * :" + toks()
+			l = c19Src + "CAP " + c19Target(r) + " LS * :" + toks()
 		case 4, 5, 6:
-			l = c19Src + "CAP vbot ACK :" + toks()
+			l = c19Src + "CAP " + c19Target(r) + " ACK :" + toks()
 		case 7:
-			l = c19Src + "CAP vbot NAK :" + toks()
+			l = c19Src + "CAP " + c19Target(r) + " NAK :" + toks()
 		case 8, 9:
 			l = "AUTHENTICATE +"
 		case 10:
@@ -530,7 +556,7 @@ func c19History(r *Rand) Fields {
 				c19Src + "CAP * DEL :a", "cap * ls :a b c", c19Src + "CAP * ls :a", c19Src + "410 vbot FOO :Invalid CAP command", c19Src + "410 vbot",
 				c19Src + "CAP * ACK a", c19Src + "CAP * LS a b", "@t=1 " + c19Src + "CAP * LS :a sasl", c19Src + "CAP * LS :", c19Src + "CAP * ACK :"})
 		default:
-			l = c19Src + "CAP * " + r.Pick([]string{"LS", "ACK", "NAK"}) + " :" + toks()
+			l = c19Src + "CAP " + c19Target(r) + " " + r.Pick([]string{"LS", "ACK", "NAK"}) + " :" + toks()
 		}
 		script = append(script, l)
 	}
